@@ -48,6 +48,12 @@ PROPS = {
                      "the k-th storage call fails (transient, and persistent from k on) with rotating error kinds (connection refused, context canceled, deadline exceeded, sqlcon, herodot 500); "
                      "oracles: result is an error or the fault-free answer; never allowed when fault-free is denied; never Err != nil together with IsMember; REST and gRPC batch entries never allowed:true with an error; "
                      "non-trivial = a run in which the planned fault position was actually reached; distinct by (case, query, k, persistent)"),
+    "C15": dict(test="TestC15", level="fault_enumeration", runs=[("", "plain", 16), ("selfperm", "plain", 8)], timeout=(900, 5400), floor=(1500, 60),
+                rule="case = generated (config, relationships, queries) incl. cycles through subject sets, recursive traverse on cyclic parents, same-object recursion through permits under && / ! (own children), nodes with >100 children; "
+                     "per query: fault-free run (N storage calls), context cancelled before start, 50 ms deadline, and for EVERY k in 1..min(N,cap): context cancelled when call k starts / returns, call k failing (transient / persistent); "
+                     "monitors: the call returns (else: quiescent deadlock or storage-less spinning observed in consecutive goroutine profiles = violation, a bare watchdog = inconclusive), storage calls <= analytic bound, "
+                     "after return + context release no goroutine with a keto check frame remains (stable stacks in consecutive profiles = leak); a child death on a journalled case is a violation; "
+                     "non-trivial = query whose fault-free run returned; distinct by (case, query); cancel/fault positions are counted in the counters"),
     "C16": dict(test="TestC16", level="exploration", runs=[("", "plain", 16)], timeout=(900, 5400), floor=(25000, 600),
                 rule="case = one generated batch of 1..350 API tuples over a pool of adversarial names (modes distinct / repeat-heavy / obj-eq-subj / mixed / page-edge / adversarial-small), "
                      "run through the real Mapper + SQLite persister (FromTuple/ToTuple/FromQuery/ToQuery/FromSubjectSet/ToTree, MapStringsToUUIDs[ReadOnly], MapUUIDsToStrings) and, for the valid-UTF-8 tuples, "
